@@ -178,15 +178,162 @@ fn warm_up() {
     let _ = simulated_thread(src, [0x5a; 16]);
 }
 
+// ---------------------------------------------------------------------------------------------
+// History leg (D4): the sequence of generate() calls a process has made is a schedule dimension too.
+// rustc expands every derive of a crate in one process, a proc-macro server lives for hours, a build
+// script may generate several lexers: the output for a definition must not depend on what the same
+// process generated before. A process-wide cache, counter or interner shows up as a difference between
+// two processes that generate the same definitions in opposite orders under the same hash keys.
+// ---------------------------------------------------------------------------------------------
+
+/// `--history-child`: read {"keys": hex32, "sources": [..]} from stdin, generate every source in that order (each on a
+/// fresh simulated thread with the same keys), print [[generate-fnv, strip-fnv], ..].
+fn history_child() -> ! {
+    use std::io::Read;
+    let mut inp = String::new();
+    std::io::stdin().read_to_string(&mut inp).expect("stdin");
+    let v: Value = serde_json::from_str(&inp).expect("history-child: stdin is not JSON");
+    let keys: [u8; 16] = v.get("keys").and_then(|k| k.as_str()).and_then(from_hex).and_then(|b| <[u8; 16]>::try_from(b).ok()).expect("history-child: keys");
+    let mut out = Vec::new();
+    for src in v.get("sources").and_then(|s| s.as_array()).expect("history-child: sources") {
+        let o = simulated_thread(src.as_str().expect("source"), keys);
+        let g = render(&o.gen);
+        out.push(json!([format!("{:016x}", fnv1a(g.as_bytes())), format!("{:016x}", fnv1a(render(&o.strip).as_bytes())), g.len()]));
+    }
+    println!("{}", Value::Array(out));
+    std::process::exit(0);
+}
+
+/// Run a fresh process that generates `sources` in order; returns per source (generate digest, strip digest).
+fn run_history(sources: &[&str], keys: [u8; 16]) -> Vec<(String, String)> {
+    use std::io::Write;
+    let exe = std::env::current_exe().expect("current_exe");
+    let mut child = std::process::Command::new(exe)
+        .arg("--history-child")
+        .stdin(std::process::Stdio::piped())
+        .stdout(std::process::Stdio::piped())
+        .stderr(std::process::Stdio::inherit())
+        .spawn()
+        .expect("spawn history child");
+    let req = json!({"keys": to_hex(&keys), "sources": sources}).to_string();
+    let mut stdin = child.stdin.take().unwrap();
+    let writer = std::thread::spawn(move || { let _ = stdin.write_all(req.as_bytes()); });
+    let out = child.wait_with_output().expect("history child");
+    let _ = writer.join();
+    if !out.status.success() {
+        eprintln!("hash-sim: history child ended with {:?}", out.status);
+        std::process::exit(2);
+    }
+    let v: Value = serde_json::from_slice(&out.stdout).expect("history child output");
+    v.as_array().expect("array").iter().map(|p| (p[0].as_str().unwrap().to_string(), p[1].as_str().unwrap().to_string())).collect()
+}
+
+const HISTORY_KEYS: [u8; 16] = [0x3c; 16];
+
+/// Does generating `history` and then `src` in one fresh process give another output for `src` than generating `src`
+/// alone in a fresh process? Returns (differs, what differs).
+fn history_differs(history: &[&str], src: &str) -> (bool, &'static str) {
+    let mut seq: Vec<&str> = history.to_vec();
+    seq.push(src);
+    let with = run_history(&seq, HISTORY_KEYS);
+    let alone = run_history(&[src], HISTORY_KEYS);
+    let (a, b) = (with.last().unwrap(), &alone[0]);
+    if a.0 != b.0 { (true, "generate()") } else if a.1 != b.1 { (true, "strip_attributes()") } else { (false, "") }
+}
+
+fn history_replay_json(def: &Definition, history: &[&Definition], what: &str, seed: u64, minimised: bool) -> Value {
+    json!({
+        "format": 1, "property": "C16", "engine": "hash-sim", "leg": "history", "oracle": "D4-history",
+        "verif_seed": seed, "minimised": minimised, "build": build_info!(),
+        "definition": {"id": def.id, "origin": def.origin, "source": def.source},
+        "history": history.iter().map(|d| json!({"id": d.id, "source": d.source})).collect::<Vec<_>>(),
+        "keys": to_hex(&HISTORY_KEYS),
+        "violation": {"what": what, "signature": format!("C16/D4-history/{}", def.id)},
+    })
+}
+
+/// `--history`: all definitions, generated sequentially in one fresh process in a seeded order and in another fresh
+/// process in the reverse order (every pair of definitions is met in both orders), same hash keys throughout.
+fn history_leg(defs: &[Definition], seed: u64, replay_dir: &str, tag: &str) -> Value {
+    let mut order: Vec<usize> = (0..defs.len()).collect();
+    let mut rng = Rng::for_run(seed, "hash-sim/history", 0);
+    for i in (1..order.len()).rev() {
+        let j = rng.below(i + 1);
+        order.swap(i, j);
+    }
+    let fwd_src: Vec<&str> = order.iter().map(|&i| defs[i].source.as_str()).collect();
+    let rev_src: Vec<&str> = order.iter().rev().map(|&i| defs[i].source.as_str()).collect();
+    let fwd = run_history(&fwd_src, HISTORY_KEYS);
+    let rev = run_history(&rev_src, HISTORY_KEYS);
+    let n = order.len();
+    let mut failures = Vec::new();
+    let mut differing = 0u64;
+    for (pos, &di) in order.iter().enumerate() {
+        let (a, b) = (&fwd[pos], &rev[n - 1 - pos]);
+        if a == b { continue; }
+        differing += 1;
+        if failures.len() >= 4 { continue; }
+        let def = &defs[di];
+        // which of the two histories changes the output with respect to a fresh process?
+        let alone = run_history(&[def.source.as_str()], HISTORY_KEYS);
+        let hist_idx: Vec<usize> = if *a != alone[0] { order[..pos].to_vec() } else { order[pos + 1..].iter().rev().cloned().collect() };
+        let hist_src: Vec<&str> = hist_idx.iter().map(|&i| defs[i].source.as_str()).collect();
+        let (differs, _) = history_differs(&hist_src, &def.source);
+        if !differs {
+            eprintln!("hash-sim: definition {} differed between the two orders but not against a fresh process: not reproducible", def.id);
+            std::process::exit(2);
+        }
+        let mut budget: u32 = 40;
+        let min_idx = ddmin(&hist_idx, &mut budget, |cand| {
+            let srcs: Vec<&str> = cand.iter().map(|&i| defs[i].source.as_str()).collect();
+            history_differs(&srcs, &def.source).0
+        });
+        let min_defs: Vec<&Definition> = min_idx.iter().map(|&i| &defs[i]).collect();
+        let srcs: Vec<&str> = min_defs.iter().map(|d| d.source.as_str()).collect();
+        let (_, which) = history_differs(&srcs, &def.source);
+        let what = format!("{} output for this definition depends on what the same process generated before: after generating {} other definition(s) ({}) it differs from the output of a fresh process given the same hash keys",
+            which, min_defs.len(), min_defs.iter().map(|d| d.id.as_str()).collect::<Vec<_>>().join(", "));
+        let path = format!("{}/C16-{}-history-{}-{}.json", replay_dir, tag, seed, di);
+        write_json(&path, &history_replay_json(def, &min_defs, &what, seed, true));
+        failures.push(json!({"class": format!("D4-history/{}", def.id), "run_index": di, "signature": format!("C16/D4-history/{}", def.id), "what": what, "replay": path,
+            "history_before": hist_idx.len(), "history_after": min_defs.len()}));
+    }
+    json!({
+        "definitions": n, "generations": 2 * n, "definitions_whose_output_depends_on_history": differing,
+        "orders": "one seeded permutation and its reverse, each in one fresh process, same hash keys",
+        "failures": failures,
+    })
+}
+
 fn main() {
     install_quiet_panic_hook();
     warm_up();
+    if std::env::args().any(|a| a == "--history-child") {
+        history_child();
+    }
     let args = Args::parse();
     let out_path = args.get("out").map(|s| s.to_string());
     let repo = args.get("repo").unwrap_or("/repo").to_string();
 
     if let Some(path) = args.get("replay") {
         let v = read_json(path);
+        if v.get("leg").and_then(|l| l.as_str()) == Some("history") {
+            let (Some(src), Some(hist)) = (v.pointer("/definition/source").and_then(|s| s.as_str()), v.get("history").and_then(|h| h.as_array())) else {
+                eprintln!("hash-sim: {path} is not a usable replay file");
+                std::process::exit(2)
+            };
+            let hist_src: Vec<&str> = hist.iter().filter_map(|h| h.get("source").and_then(|s| s.as_str())).collect();
+            let id = v.pointer("/definition/id").and_then(|s| s.as_str()).unwrap_or("?");
+            let (differs, which) = history_differs(&hist_src, src);
+            let result = if differs {
+                json!({"reproduced": true, "signature": format!("C16/D4-history/{}", id), "what": format!("{} output depends on the {} definition(s) generated before in the same process", which, hist_src.len()), "oracle": "D4-history", "build": build_info!()})
+            } else {
+                json!({"reproduced": false, "build": build_info!()})
+            };
+            println!("{}", result);
+            if let Some(p) = out_path { write_json(&p, &result); }
+            std::process::exit(if differs { 1 } else { 0 });
+        }
         let (Some(src), Some(keys)) = (v.pointer("/definition/source").and_then(|s| s.as_str()), v.get("key_draws").and_then(|k| k.as_array())) else {
             eprintln!("hash-sim: {path} is not a usable replay file");
             std::process::exit(2)
@@ -228,6 +375,19 @@ fn main() {
     if defs.len() < 50 {
         eprintln!("hash-sim: only {} definitions found under {repo}", defs.len());
         std::process::exit(2);
+    }
+    if args.flag("history") || args.get("history").is_some() {
+        let mut result = history_leg(&defs, seed, &replay_dir, &tag);
+        result["engine"] = json!("hash-sim");
+        result["leg"] = json!("history");
+        result["seed"] = json!(seed);
+        result["build"] = build_info!();
+        result["tag"] = json!(tag);
+        match out_path {
+            Some(p) => write_json(&p, &result),
+            None => println!("{:#}", result),
+        }
+        return;
     }
 
     // per definition facts, gathered in index order after the batch
